@@ -80,6 +80,7 @@ type schedState struct {
 	wgs      map[*value]*wgState
 	onces    map[*value]*onceState
 	race     *raceState
+	inInit   int
 }
 
 type lockState struct {
@@ -266,15 +267,24 @@ func (in *Interp) caseReady(self *gor, c selCase) bool {
 }
 
 // pickNext chooses the goroutine that runs next; nil means nobody can run.
+//
+// Delay-bounded scheduling (Emmi, Qadeer, Rakamaric 2011): the default scheduler is deterministic
+// -- the running goroutine continues while it can, otherwise the next enabled goroutine in
+// round-robin order takes over -- and every deviation from it (skipping one candidate in that
+// order) costs one unit of the per-path budget (option preempt=N). With budget 0 exactly one
+// schedule is explored; the number of schedules grows polynomially with the budget. At explicit
+// yields of the harness (vYield, vSched, time.Sleep, Gosched) every candidate is free, so the
+// order of the environment's events is fully explored.
 func (in *Interp) pickNext(self *gor, free bool) *gor {
 	s := &in.sch
 	var cands []*gor
-	selfOK := self.state == gRunnable
-	if selfOK {
+	if self.state == gRunnable {
 		cands = append(cands, self)
 	}
-	for _, g := range s.gs {
-		if g != self && in.enabled(g) {
+	n := len(s.gs)
+	for k := 1; k < n; k++ {
+		g := s.gs[(self.id+k)%n]
+		if in.enabled(g) {
 			cands = append(cands, g)
 		}
 	}
@@ -284,14 +294,19 @@ func (in *Interp) pickNext(self *gor, free bool) *gor {
 	if len(cands) == 1 {
 		return cands[0]
 	}
-	if selfOK && !free && s.preempts >= in.cfg.MaxPreempt {
-		return self
+	if free && self.state == gRunnable {
+		return cands[in.choose(len(cands), "schedule")]
 	}
-	g := cands[in.choose(len(cands), "schedule")]
-	if selfOK && g != self && !free {
-		s.preempts++
+	m := len(cands)
+	if left := in.cfg.MaxPreempt - s.preempts; left+1 < m {
+		m = left + 1
 	}
-	return g
+	if m <= 1 {
+		return cands[0]
+	}
+	i := in.choose(m, "schedule")
+	s.preempts += i
+	return cands[i]
 }
 
 func (in *Interp) switchTo(self, next *gor) {
@@ -320,7 +335,7 @@ func (in *Interp) switchTo(self, next *gor) {
 // schedPoint is a preemption opportunity for the running goroutine.
 func (in *Interp) schedPoint(what string) {
 	s := &in.sch
-	if !s.on || len(s.gs) == 1 {
+	if !s.on || len(s.gs) == 1 || s.inInit > 0 {
 		return
 	}
 	self := s.cur
@@ -331,7 +346,7 @@ func (in *Interp) schedPoint(what string) {
 // yieldPoint is an explicit yield: switching is free.
 func (in *Interp) yieldPoint() {
 	s := &in.sch
-	if !s.on || len(s.gs) == 1 {
+	if !s.on || len(s.gs) == 1 || s.inInit > 0 {
 		return
 	}
 	self := s.cur
